@@ -337,6 +337,9 @@ case("gw-self-skip", "dep/gw/gateway", ["Processor"], pkg="gateway", skip=True)
 case("gw-self", "dep/gw/gateway", ["Processor"], pkg="gateway")
 case("gw-self-test", "dep/gw/gateway", ["Processor"], pkg="paygw_test")
 case("gw-self-other", "dep/gw/gateway", ["Processor"], pkg="other", stub=True)
+case("gw-self-name", "dep/gw/gateway", ["Processor"], pkg="paygw")
+case("gw-self-name-skip", "dep/gw/gateway", ["Processor"], pkg="paygw", skip=True, stub=True)
+case("twice-self-name", "adv/twice", ["Sender", "Auditor"], pkg="twice")
 
 # ---- build constraints in the declaring file ----
 FILES["adv/buildtag/a.go"] = """package buildtag
